@@ -2,6 +2,7 @@ package main
 
 import (
 	"fmt"
+	"regexp"
 	"strings"
 
 	"golang.org/x/tools/go/ssa"
@@ -15,6 +16,27 @@ func init() {
 const cqH = "(*internal/api.ContinuousQueryHandler)."
 
 func runC29(c *Ctx) {
+	c.Rule("C29.BARE", "SQLT: the statements that read a continuous query select last_processed_time as the bare column — no COALESCE / CASE / IFNULL that substitutes another instant (the end of a failed execution, say) when it is NULL")
+	{
+		n := 0
+		re := regexp.MustCompile(`(?is)(coalesce|ifnull|nullif|case\b|iif)[^,]{0,200}last_processed_time`)
+		for _, name := range []string{"getQuery", "getQueries"} {
+			fn := c.P.Func("(*internal/api.ContinuousQueryHandler)." + name)
+			if fn == nil {
+				continue
+			}
+			for _, site := range sqlSites(fn) {
+				for _, t := range site.Tmpls {
+					if !strings.Contains(strings.ToLower(t), "last_processed_time") {
+						continue
+					}
+					n++
+					c.Check(!re.MatchString(t), "C29.BARE", fmt.Sprintf("%s|select#%d", name, n), site.Call.Pos(), "last_processed_time is read as the bare column", name+" reads the watermark through a fallback expression: for a query that never succeeded, the end of a failed execution becomes the start of the next window, and the failed range is never processed")
+				}
+			}
+		}
+		c.Check(n >= 1, "C29.BARE", "continuous_query|select-sites", 0, fmt.Sprintf("%d SELECT template(s) reading the watermark inspected", n), "no SELECT reading last_processed_time found in getQuery/getQueries (rule needs review)")
+	}
 	p := c.P
 	c.Rule("C29.ADVANCE", "WHO+DOM: continuous_queries.last_processed_time is updated only inside recordExecutionAndUpdateTime (the stand-alone updater must stay unused), and every call of it is dominated by executeAggregation having returned nil")
 	c.Rule("C29.SAME", "FLOW: in each executor the end value handed to recordExecutionAndUpdateTime is the very value formatted into the query's {end_time}, and the stored watermark and the substituted literal use the same layout constant")
